@@ -36,6 +36,8 @@ def run(ctx):
               label="negative self-test: one shared default scale breaks isolation after Construct;Construct;Export")
     ctx.model("Timelines", "NegTimelines_shareddir.cfg", workers=2, expect_violation="Isolation",
               label="negative self-test: reading the direction back from the shared default engine-option dict breaks isolation")
+    ctx.model("Timelines", "NegTimelines_refit.cfg", workers=2, expect_violation="Isolation",
+              label="negative self-test: fitting the axis again at every export changes the document of a nice-sensitive configuration")
     maxlen = 4 if quick else 5
     hs = [h for h in tlc_histories(ctx, maxlen) if len(h) == maxlen and any(e["a"] == "E" for e in h)]
     if not quick:
